@@ -515,6 +515,20 @@ Section Npz.
   Definition nb_roundtrip (dt : Z * bool) (c : coo V) : res arr :=
     nat <- nb_unbox dt (ACoo c) nb_unbox_fields ;; nb_box nat.
 
+  (* impl_COO: `COO(coords, data, shape)` written inside a Numba-compiled function.  The three native values are
+     stored into the record (fill_value := zero of the data dtype), which is boxed on return.  The record's shape
+     member is typed UniTuple(coordinate dtype, ndim) while the argument tuple is typed by its own elements (intp for
+     Python ints; the empty tuple has the distinct type Tuple(())): unless the two machine representations coincide
+     ([n x i64] for both int64 and uint64 coordinates; signedness is invisible at that level) the store is ill-typed
+     and compilation fails with a TypeError. *)
+  Definition nb_construct_typed (dt : Z * bool) (sh : shape) : bool :=
+    nonempty sh && (fst dt =? 64).
+  Definition nb_construct (zero : V) (dt : Z * bool) (c : coo V) : res arr :=
+    if nb_construct_typed dt (c_shape c) then
+      nb_box [(s_coords, FMat (len (c_shape c)) (c_coords c)); (s_data, FData (c_data c));
+              (s_shape, FInts (c_shape c)); (s_fill, FScalar zero)]
+    else Raise TypeError.
+
   Definition fits (dt : Z * bool) (z : Z) : bool :=
     if snd dt then (- 2 ^ (fst dt - 1) <=? z) && (z <? 2 ^ (fst dt - 1))
     else (0 <=? z) && (z <? 2 ^ fst dt).
